@@ -32,10 +32,14 @@ var (
 	c11DBOk   bool
 	c11Stored []*api.MetricLog
 	c11Asked  []string
+	c11FailAt = -1 // index of the query that fails in this request (-1: none)
 )
 
 func (d *c11DB) GetObservationLog(ctx context.Context, in *api.GetObservationLogRequest) (*api.GetObservationLogReply, error) {
 	c11Asked = append(c11Asked, in.MetricName)
+	if len(c11Asked)-1 == c11FailAt {
+		return nil, fmt.Errorf("rpc error: code = Unavailable desc = database is down")
+	}
 	out := []*api.MetricLog{}
 	for _, m := range c11Stored {
 		if in.MetricName == "" || m.Metric.Name == in.MetricName {
@@ -149,8 +153,15 @@ func init() {
 		}
 		op := fmt.Sprintf("C11 %d %s ; %d %s", ns, strings.Join(sn, " "), ne, strings.Join(es, " "))
 		viaClient := ns > 0 && rng.Intn(3) == 0 && startC11DB()
+		failAt := -1
 		if viaClient {
 			tags = append(tags, "via-manager-client")
+			if rng.Intn(4) == 0 {
+				// one of the client's queries fails (DB manager restart, connection blip)
+				failAt = rng.Intn(ns + 1)
+				op = fmt.Sprintf("C11F %d %s", failAt, strings.TrimPrefix(op, "C11 "))
+				tags = append(tags, "db-manager-query-fails")
+			}
 		}
 		var impl string
 		func() {
@@ -162,7 +173,7 @@ func init() {
 			fetched := logs
 			if viaClient {
 				// the controller's own path: the real manager client asks the DB manager metric by metric
-				c11Stored, c11Asked = logs, nil
+				c11Stored, c11Asked, c11FailAt = logs, nil, failAt
 				tr := &trialsv1beta1.Trial{ObjectMeta: metav1.ObjectMeta{Name: "t", Namespace: "ns"}}
 				tr.Spec.Objective = &commonv1beta1.ObjectiveSpec{MetricStrategies: strategies}
 				if len(strategies) > 0 {
